@@ -82,14 +82,24 @@ def make_body(kind, size):
     return body, {'data': data, 'hdr_len': hdr_len}
 
 
-HOWS = ['ctor', 'setup', 'resetup']     # how the application came by its limits
+HOWS = ['ctor', 'setup', 'resetup', 'ctor_mappingproxy', 'setup_chainmap', 'ctor_userdict']     # how the application came by its limits (and in what kind of mapping)
 HOW_OF = {}
 
 
 def build_app(L, B, seen, how='ctor'):
     import ombott
     cfg = {'max_body_size': L, 'max_memfile_size': B}
-    if how == 'ctor':
+    if how == 'ctor_mappingproxy':
+        import types
+        app = ombott.Ombott(types.MappingProxyType(cfg))
+    elif how == 'setup_chainmap':
+        import collections
+        app = ombott.Ombott()
+        app.setup(collections.ChainMap({}, cfg))
+    elif how == 'ctor_userdict':
+        import collections
+        app = ombott.Ombott(collections.UserDict(cfg))
+    elif how == 'ctor':
         app = ombott.Ombott(cfg)
     elif how == 'setup':
         app = ombott.Ombott()           # created with the defaults, configured afterwards
@@ -154,11 +164,11 @@ def cell(ctx, app, seen, S_target, L, B, framing, kind, grid=False):
         # a chunked request may carry a Content-Length as well (chunked framing wins): one that lies on the other side of
         # the limit must not decide anything
         extra = None
-        sel = (S + (L or 0) + B + framing) % 3
+        sel = (S + int(L or 0) + B + framing) % 3
         if sel == 1:
             extra = {'CONTENT_LENGTH': '3'}
         elif sel == 2:
-            extra = {'CONTENT_LENGTH': str((L or B) * 50 + 7)}
+            extra = {'CONTENT_LENGTH': str(int(L or B) * 50 + 7)}
         if extra:
             ctx.count('chunked_with_misleading_content_length')
         env = make_environ('POST', '/raw' if kind == 'raw' else '/forms', stream=st, content_length=None, chunked=True, content_type=ctype, extra=extra)
@@ -327,9 +337,12 @@ def random_unit(ctx, unit):
         L = rng.choice([None, rng.randint(0, 40), rng.randint(41, 700), rng.randint(701, 9000)])
         B = rng.choice([rng.randint(8, 40), rng.randint(41, 600), rng.randint(601, 5000), 102400])
         seen = {}
+        if L is not None and rng.random() < 0.25:
+            L = L + rng.choice([0.0, 0.5])          # a limit computed as a float (1.5 * 1024, 10000 / 4)
+            ctx.count('float_limits')
         app = build_app(L, B, seen, rng.choice(HOWS))
         for _ in range(6):
-            base = L if L is not None else B
+            base = int(L) if L is not None else B
             S = max(0, rng.choice([base, base + 1, base - 1, base + B, base + B + 1, base + B - 1, rng.randint(0, 2 * base + 2 * B + 10), B, B + 1, 0]))
             if S > 60000:
                 S = 60000
@@ -345,7 +358,7 @@ def random_unit(ctx, unit):
 def grid_unit(ctx, unit):
     L, B = unit['L'], unit['B']
     seen = {}
-    app = build_app(L, B, seen, HOWS[((L or 0) + B) % 3])
+    app = build_app(L, B, seen, HOWS[((L or 0) + B) % len(HOWS)])
     framings = ['cl'] + sorted({1, max(1, B - 1), B, B + 1, 10 * B})
     if B < 8:
         # the chunk size line (digits + CRLF) must fit the configured buffer (anchored mechanism, see C05): no chunked cells here
